@@ -597,15 +597,16 @@ fn args_desc(p: &mut Parser) {
 		break;
 	}
 	p.expect(T![')']);
-	if p.at(T![tailstrict]) {
-		p.bump();
-	}
 
 	for errored in unnamed_after_named {
 		errored.wrap_error(p, "can't use positional arguments after named", true);
 	}
 
 	m.complete(p, ARGS_DESC);
+	// `tailstrict` belongs to the call (SuffixApply::tailstrict_kw_token), not to its argument list
+	if p.at(T![tailstrict]) {
+		p.bump();
+	}
 }
 
 fn array(p: &mut Parser) -> CompletedMarker {
